@@ -123,8 +123,11 @@ pub async fn transfer_file_to_remote(
     let touch = mtime.map_or(String::new(), |t| format!(" && touch -d @{t} $'{escaped}'"));
     let mut child = tokio::process::Command::new("ssh")
         .arg(host)
+        // The rename is conditioned on the staged byte count: when the sender dies
+        // mid-stream `cat` sees EOF and exits 0, and a bare `cat && mv` would publish
+        // the truncated staging file.
         .arg(format!(
-            "cat > $'{tmp_escaped}' && mv -f $'{tmp_escaped}' $'{escaped}'{touch}"
+            "cat > $'{tmp_escaped}' && [ \"$(wc -c < $'{tmp_escaped}')\" -eq {file_size} ] && mv -f $'{tmp_escaped}' $'{escaped}'{touch}"
         ))
         .stdin(std::process::Stdio::piped())
         .stdout(std::process::Stdio::null())
